@@ -36,6 +36,7 @@ const (
 	OpEnv       OpKind = "env"
 	OpBlockForever OpKind = "block"
 	OpIdle         OpKind = "idle"
+	OpChoice       OpKind = "choice" // a data choice of the running thread (no thread switch), e.g. the iteration order of a map
 )
 
 // thread is one cooperative thread.
@@ -699,6 +700,36 @@ func FireTimers() int {
 }
 
 
+// Choose is a data choice point of the running thread: the explorer picks a value in [0,n). Choice 0 is the default,
+// any other value costs one deviation. Outside a controlled execution it returns 0.
+func Choose(n int, label string) int {
+	if n <= 1 {
+		return 0
+	}
+	r := rs
+	r.mu.Lock()
+	defer r.mu.Unlock()
+	if !r.active || r.over || r.current == nil {
+		return 0
+	}
+	pt := Point{Running: r.current.id, RunningEnabled: true}
+	for i := 0; i < n; i++ {
+		pt.Enabled = append(pt.Enabled, Choice{Kind: OpChoice, Thread: r.current.id, Label: fmt.Sprintf("choice %s = %d", label, i), Case: i})
+	}
+	idx := r.chooser(&pt)
+	if idx < 0 || idx >= n {
+		r.res.Panic = fmt.Sprintf("explorer: choice %d out of range (%d values) at point %d", idx, n, len(r.res.Points))
+		idx = 0
+	}
+	pt.Chosen = idx
+	r.res.Points = append(r.res.Points, pt)
+	return idx
+}
+
+// MapOrderChoices makes the iteration order of every ranged map with at least two entries a data choice
+// (0: ascending printed keys, 1: descending), which covers both relative orders of every pair of entries.
+var MapOrderChoices bool
+
 // RangeMap replaces the map operand of range statements in instrumented files (option -detmaps): the entries are
 // visited in the order of their printed keys instead of Go's randomised order, so that an execution is a function
 // of the scheduler's choices alone. Entries deleted during the iteration are skipped, values are read when reached.
@@ -721,6 +752,11 @@ func RangeMap[M ~map[K]V, K comparable, V any](m M) iter.Seq2[K, V] {
 			es = append(es, ent{k, s})
 		}
 		sort.SliceStable(es, func(i, j int) bool { return es[i].s < es[j].s })
+		if MapOrderChoices && len(es) >= 2 && Choose(2, "map-order") == 1 {
+			for i, j := 0, len(es)-1; i < j; i, j = i+1, j-1 {
+				es[i], es[j] = es[j], es[i]
+			}
+		}
 		for _, e := range es {
 			v, ok := m[e.k]
 			if !ok {
